@@ -1,5 +1,6 @@
 import Csverif.Proofs.HCache.Attach
 import Csverif.Proofs.HCache.Fuel
+import Csverif.Proofs.HCache.View
 /- C19 helper lemmas, part 9: `__insert_node`. -/
 namespace CS.HCache
 open CS.Path
@@ -187,6 +188,12 @@ theorem Stage.start {c : Cfg} {s : HC} {init : List Str} {a : Str} {j i : Nat} (
       · next e => subst e; rfl
       · rfl)
 
+theorem res_labelSt {c : Cfg} {s : HC} {i : Nat} (hsub : Sub c s i) (a : Str) (j : Nat) (q : List Str) :
+    res (labelSt s i a j) q = res s q := by
+  have hi : ¬ Reach s i := hsub.unreach [] i rfl
+  have hnd := nd_labelSt s i a j hsub.valid
+  exact res_congr_reach (fun m hm => by rw [hnd]; have : m ≠ i := fun e => hi (e ▸ hm); simp [this]) q
+
 theorem flatMap_congr' {α β : Type} {l : List α} {f g : α → List β} (h : ∀ a ∈ l, f a = g a) :
     l.flatMap f = l.flatMap g := by
   induction l with
@@ -249,7 +256,8 @@ theorem insertPre_spec {c : Cfg} (g : CfgGood c) {s : HC} {i : Nat} {ks : List S
     (hroot : ∀ o, (s.nd i).oid = some o → o ≠ 0 → (s.nd 0).oid ≠ some o) :
     ∀ out, insertPre c i (canon c.sep ks) s = out →
       DelPost c s out.1 ∧ out.2 = .ok () ∧ res out.1 ks = none ∧
-      (∀ o, (s.nd i).oid = some o → o ≠ 0 → dget out.1.idmap o = none) := by
+      (∀ o, (s.nd i).oid = some o → o ≠ 0 → dget out.1.idmap o = none) ∧
+      (∀ x, res s ks = some x → (out.1.nd x).parent = none ∧ ¬ Reach out.1 x) := by
   intro out hout
   rw [insertPre_run] at hout
   have hi : ¬ Reach s i := hsub.unreach [] i rfl
@@ -272,6 +280,17 @@ theorem insertPre_spec {c : Cfg} (g : CfgGood c) {s : HC} {i : Nat} {ks : List S
           exact hne (hc.res_root hx)
         exact (d2 x _ (by rw [hlook, hx]) hx).2.1 trivial hx0 _ (List.prefix_refl _)
     have hndi : s1.nd i = s.nd i := d1.frame i hi
+    have hx1 : ∀ x, res s ks = some x → (s1.nd x).parent = none ∧ ¬ Reach s1 x := by
+      intro x hx
+      have hx0 : x ≠ 0 := by intro e; subst e; exact hne (hc.res_root hx)
+      refine ⟨(d2 x _ (by rw [hlook, hx]) hx).2.2 trivial hx0, ?_⟩
+      rintro ⟨q, hq⟩
+      rcases d1.shrink q with a | a
+      · rw [a] at hq; simp at hq
+      · rw [a] at hq
+        have := hc.res_inj hq hx
+        subst this
+        rw [hnone1] at a; rw [hx] at a; simp at a
     by_cases ht : truthy (s1.nd i).oid = true
     · rw [if_pos ht] at hout
       cases ho : (s1.nd i).oid with
@@ -289,7 +308,10 @@ theorem insertPre_spec {c : Cfg} (g : CfgGood c) {s : HC} {i : Nat} {ks : List S
           simp only at hd' htot'
           subst htot'
           subst hout
-          refine ⟨d1.trans hd', rfl, ?_, fun o' ho'' h0' => ?_⟩
+          refine ⟨d1.trans hd', rfl, ?_, fun o' ho'' h0' => ?_, fun x hx => ?_⟩
+          rotate_left 2
+          · obtain ⟨a1, a2⟩ := hx1 x hx
+            exact ⟨by rw [hd'.frame x a2]; exact a1, fun h => a2 (hd'.reach h)⟩
           · rcases hd'.shrink ks with a | a
             · exact a
             · rw [a]; exact hnone1
@@ -297,12 +319,87 @@ theorem insertPre_spec {c : Cfg} (g : CfgGood c) {s : HC} {i : Nat} {ks : List S
             exact delete_oid_gone g d1.coh h0 hr1 hrun2 rfl
     · rw [if_neg ht] at hout
       subst hout
-      refine ⟨d1, rfl, hnone1, fun o ho h0 => ?_⟩
+      refine ⟨d1, rfl, hnone1, fun o ho h0 => ?_, hx1⟩
       exfalso; apply ht
       rw [hndi, ho]
       cases o with
       | zero => exact absurd rfl h0
       | succ k => rfl
+
+theorem rmV_of_none {s : HC} {ks : List Str} (h : res s ks = none) (q : List Str) : rmV ks (view s) q = view s q := by
+  simp only [rmV]
+  split
+  · next hp =>
+    obtain ⟨r, rfl⟩ := hp.1
+    symm; apply view_none
+    cases hr : res s (ks ++ r) with
+    | none => rfl
+    | some m => obtain ⟨y, hy, _⟩ := res_prefix hr; rw [h] at hy; simp at hy
+  · rfl
+
+/-- the dictionary view after the eviction phase of `__insert_node`, exactly -/
+theorem insertPre_view {c : Cfg} (g : CfgGood c) {s : HC} {i : Nat} {ks : List Str} (hk : KsOk c ks) (hne : ks ≠ [])
+    (hc : Coherent c s) (hsub : Sub c s i)
+    (hroot : ∀ o, (s.nd i).oid = some o → o ≠ 0 → (s.nd 0).oid ≠ some o) :
+    (∀ o, (s.nd i).oid = some o → o ≠ 0 →
+      (∀ kx, HolderV (rmV ks (view s)) o kx →
+        ∀ q, view (insertPre c i (canon c.sep ks) s).1 q = rmV kx (rmV ks (view s)) q) ∧
+      ((∀ k, ¬ HolderV (rmV ks (view s)) o k) →
+        ∀ q, view (insertPre c i (canon c.sep ks) s).1 q = rmV ks (view s) q)) ∧
+    (truthy (s.nd i).oid = false → ∀ q, view (insertPre c i (canon c.sep ks) s).1 q = rmV ks (view s) q) := by
+  have hi : ¬ Reach s i := hsub.unreach [] i rfl
+  have hlook := getNode_canon g s hk
+  have hdv := delete_view g hc none (some (canon c.sep ks))
+  have hd := (delete_spec g s none (some (canon c.sep ks)) hc).1
+  have htot := delete_total g hc none (some (canon c.sep ks)) (Or.inr rfl)
+  rw [insertPre_run]
+  cases hrun1 : delete c none (some (canon c.sep ks)) s with
+  | mk s1 r1 =>
+    rw [hrun1] at hdv hd htot
+    simp only at hdv hd htot
+    subst htot
+    simp only
+    have hv1 : ∀ q, view s1 q = rmV ks (view s) q := by
+      intro q
+      cases hx : res s ks with
+      | none =>
+        rw [hdv.2 (fun x hx' => by rw [hlook, hx] at hx'; simp at hx'), rmV_of_none hx]
+      | some x =>
+        have hx0 : x ≠ 0 := by intro e; subst e; exact hne (hc.res_root hx)
+        exact hdv.1 x ks (by rw [hlook, hx]) hx hx0 q
+    have hndi : s1.nd i = s.nd i := hd.frame i hi
+    refine ⟨fun o ho h0 => ?_, fun hf => ?_⟩
+    · have ht : truthy (s1.nd i).oid = true := by
+        rw [hndi, ho]
+        cases o with
+        | zero => exact absurd rfl h0
+        | succ k => rfl
+      rw [if_pos ht, hndi, ho]
+      have hdv2 := delete_view g hd.coh (some o) none
+      obtain ⟨r, hr, hr1, hr2⟩ := hd.coh.getNode_oid o none
+      have hr0 : (s1.nd 0).oid ≠ some o := by rw [(hd.fields 0).2.1]; exact hroot o ho h0
+      refine ⟨fun kx hh q => ?_, fun hno q => ?_⟩
+      · obtain ⟨t, ht'⟩ := hh
+        rw [← hv1 kx] at ht'
+        obtain ⟨x', hx', he⟩ := view_eq_some ht'
+        have hox : (s1.nd x').oid = some o := by
+          have := congrArg Prod.snd he; simpa [entOf] using this
+        have hrx := hr2 h0 x' ⟨_, hx'⟩ hox
+        have hx0 : x' ≠ 0 := fun e => hr0 (e ▸ hox)
+        rw [hdv2.1 x' kx (by rw [hr, hrx]) hx' hx0 q]
+        simp only [rmV, hv1]
+      · have hnone : r = none := by
+          cases r with
+          | none => rfl
+          | some x' =>
+            exfalso
+            obtain ⟨⟨kx, hkx⟩, hox⟩ := hr1 x' rfl
+            exact hno kx ⟨(s1.nd x').type, by rw [← hv1, view_some hkx]; simp [entOf, hox]⟩
+        rw [hdv2.2 (fun x hx => by rw [hr, hnone] at hx; simp at hx)]
+        exact hv1 q
+    · have ht : ¬ truthy (s1.nd i).oid = true := by rw [hndi, hf]; simp
+      rw [if_neg ht]
+      exact hv1
 
 /-- what `insertTail` guarantees whatever its outcome -/
 structure CorePost (c : Cfg) (s : HC) (init : List Str) (a : Str) (i : Nat) (s' : HC) : Prop where
@@ -311,6 +408,7 @@ structure CorePost (c : Cfg) (s : HC) (init : List Str) (a : Str) (i : Nat) (s' 
   fi : (s'.nd i).oid = (s.nd i).oid ∧ (s'.nd i).type = (s.nd i).type
   shrink : ∀ q m, res s' q = some m → res s q = some m ∨ ∃ r, q = init ++ [a] ++ r ∧ resFrom s i r = some m
   oid_same : ∀ m, (s'.nd m).oid = (s.nd m).oid
+  type_same : ∀ m, (s'.nd m).type = (s.nd m).type
 
 theorem Stage.corePost {c : Cfg} {s : HC} {init : List Str} {a : Str} {j i : Nat} {t : HC}
     (h : Stage c s init a j i t) (hi : ¬ Reach s i) : CorePost c s init a i t :=
@@ -318,7 +416,11 @@ theorem Stage.corePost {c : Cfg} {s : HC} {init : List Str} {a : Str} {j i : Nat
    fun m => by
     by_cases e : m = i
     · subst e; rw [h.ndi]
-    · exact (h.fields m e).2⟩
+    · exact (h.fields m e).2,
+   fun m => by
+    by_cases e : m = i
+    · subst e; rw [h.ndi]
+    · exact (h.fields m e).1⟩
 
 /-- **linking a detached subtree under its parent and re-indexing it** (the part of `__insert_node`
     after the parent is known): nothing resolves at the target yet and the node's id is free -/
@@ -328,8 +430,10 @@ theorem insertTail_spec {c : Cfg} (g : CfgGood c) {s : HC} {init : List Str} {a 
     (hfresh : ∀ o, (s.nd i).oid = some o → o ≠ 0 → dget s.idmap o = none) :
     ∀ out, insertTail c i a j s = out →
     CorePost c s init a i out.1 ∧
-      (out.2 = .ok () → res out.1 (init ++ [a]) = some i ∧ ∀ q, resFrom out.1 i q = resFrom s i q) ∧
-      out.2 ≠ .error .fuel := by
+      (out.2 = .ok () → res out.1 (init ++ [a]) = some i ∧ (∀ q, resFrom out.1 i q = resFrom s i q) ∧
+        (∀ q, res out.1 q = if (init ++ [a]) <+: q then resFrom s i (q.drop (init ++ [a]).length) else res s q)) ∧
+      out.2 ≠ .error .fuel ∧
+      ((s.nd j).type = .dir → ((s.nd i).oid = none ∨ (s.nd i).oid ≠ (s.nd j).oid) → out.2 = .ok ()) := by
   intro out hout
   have hi : ¬ Reach s i := hsub.unreach [] i rfl
   have hji : j ≠ i := fun e => hi (e ▸ ⟨_, hj⟩)
@@ -357,7 +461,18 @@ theorem insertTail_spec {c : Cfg} (g : CfgGood c) {s : HC} {init : List Str} {a 
   | false =>
     rw [hcki] at hout
     simp only [if_true] at hout
-    subst hout; exact ⟨st4.corePost hi, fun h => by simp at h, by simp⟩
+    subst hout
+    refine ⟨st4.corePost hi, fun h => by simp at h, by simp, fun _ hoidh => ?_⟩
+    exfalso
+    have hj4 : (s4.nd j).oid = (s.nd j).oid := (st4.fields j hji).2
+    unfold checkOk at hcki
+    rw [st4.ndi] at hcki
+    simp only at hcki
+    rw [hj4] at hcki
+    rcases hoidh with h1 | h1
+    · simp [h1, hji] at hcki
+    · have : ((s.nd i).oid != (s.nd j).oid) = true := by simpa using h1
+      simp [this, hji] at hcki
   | true =>
     rw [hcki] at hout
     simp only [Bool.true_eq_false, if_false] at hout
@@ -449,7 +564,7 @@ theorem insertTail_spec {c : Cfg} (g : CfgGood c) {s : HC} {init : List Str} {a 
         by_cases e : m = i
         · subst e; rw [st4.ndi]
         · exact (st4.fields m e).2
-      refine ⟨⟨hc6, ⟨?_, ?_, ?_, ?_⟩, ?_, ?_, ?_⟩, fun _ => ⟨hres6, fun q => ?_⟩, by simp⟩
+      refine ⟨⟨hc6, ⟨?_, ?_, ?_, ?_⟩, ?_, ?_, ?_, ?_⟩, fun _ => ⟨hres6, fun q => ?_, fun q => ?_⟩, by simp, fun _ _ => rfl⟩
       · simp only [attachSt, setNd_len]; exact Nat.le_of_eq st4.len.symm
       · intro m hm hr hE
         have hmi : m ≠ i := fun e => hE ⟨[], by rw [e]; rfl⟩
@@ -478,11 +593,24 @@ theorem insertTail_spec {c : Cfg} (g : CfgGood c) {s : HC} {init : List Str} {a 
       · intro m
         show ((attachSt s4 j i a).nd m).oid = _
         rw [hoid5]; exact hoid_all m
+      · intro m
+        show ((attachSt s4 j i a).nd m).type = _
+        rw [(x.fields_attach m).1]
+        by_cases e : m = i
+        · subst e; rw [st4.ndi]
+        · exact (st4.fields m e).1
       · have e1 : resFrom ({ attachSt s4 j i a with idmap := M' } : HC) i q = resFrom (attachSt s4 j i a) i q :=
           resFrom_congr (s := attachSt s4 j i a) (s' := { attachSt s4 j i a with idmap := M' }) q i (fun _ _ _ => rfl)
         exact e1.trans (by rw [x.resFrom_sub_attach, st4.subres])
+      · rw [AttachCtx.res_with_idmap]
+        by_cases hp : (init ++ [a]) <+: q
+        · rw [if_pos hp]
+          obtain ⟨r, rfl⟩ := hp
+          rw [x.res_attach_in, List.drop_left, st4.subres]
+        · rw [if_neg hp, x.res_attach_out q hp, hs4, res_labelSt hsub]
     · rw [if_pos hdir] at hout
       subst hout
-      exact ⟨st4.corePost hi, fun h => by simp at h, by simp⟩
+      refine ⟨st4.corePost hi, fun h => by simp at h, by simp, fun hd _ => ?_⟩
+      exact absurd ((st4.fields j hji).1.trans hd) hdir
 
 end CS.HCache
